@@ -351,8 +351,9 @@ class Pair:
         while base < len(cases):
             chunk = cases[base:]
             rc_i, io, ierr = self.run_impl(chunk)
-            if rc_i == -9:
-                hangs += 1      # the harness did not finish within the time limit (a hang is reported like a crash)
+            if rc_i in (-9, 124):
+                hangs += 1      # the harness (or, 124, one case in its own child process) did not finish within the time
+                                # limit: a hang is reported like a crash
             crashed_at = None
             if rc_i != 0:
                 done = [k for k in range(len(chunk)) if k in io and len(io[k]) >= len(chunk[k])]
